@@ -205,7 +205,12 @@ def run(spec, ctx):
     r = ctx.rng
     env2 = jsonpath.JSONPathEnvironment()
     for _ in range(spec["n"]):
-        doc = gen.gen_doc(r, profile="unique", hostile=r.choice([0.1, 0.5]), max_depth=r.randint(2, 4), fan=r.randint(2, 4))
+        shared = _ % 6 == 5
+        # (every sixth document holds one container object at several locations - a shared defaults object, `[row] * n`,
+        # YAML anchors: as JSON text or a file it is the same document with independent copies)
+        doc = gen.gen_doc(r, profile="unique" if not shared else "mixed", hostile=r.choice([0.1, 0.5]), max_depth=r.randint(2, 4), fan=r.randint(2, 4), alias=0.35 if shared else 0.0)
+        if shared:
+            ctx.count("documents_with_shared_containers")
         names = gen.doc_names(doc)[:12] or ["a"]
         use_ctx = r.random() < 0.3
         fg = gen.ExtFilterGen(r, names[:4] or ["a"], max_depth=2) if use_ctx else gen.FilterGen(r, names[:4] or ["a"], max_depth=2)
